@@ -204,6 +204,35 @@ pub fn t22_extension_types(data: &[u8]) -> Vec<u16> {
     out
 }
 
+/// (value of the DefaultAccountState extension or 1 = initialized, TLV walk ends cleanly)
+pub fn t22_default_state_and_wf(data: &[u8]) -> (u8, bool) {
+    let mut ds = 1u8;
+    if data.len() <= 166 {
+        return (ds, true);
+    }
+    let mut o = 166;
+    loop {
+        if o + 2 > data.len() {
+            return (ds, true);
+        }
+        let t = u16::from_le_bytes(data[o..o + 2].try_into().unwrap());
+        if t == 0 {
+            return (ds, true);
+        }
+        if o + 4 > data.len() {
+            return (ds, false);
+        }
+        let l = u16::from_le_bytes(data[o + 2..o + 4].try_into().unwrap()) as usize;
+        if o + 4 + l > data.len() {
+            return (ds, false);
+        }
+        if t == 6 && l >= 1 {
+            ds = data[o + 4];
+        }
+        o += 4 + l;
+    }
+}
+
 /// Transfer-fee config of a token-2022 mint: (older(epoch,max,bps), newer(epoch,max,bps))
 pub fn t22_transfer_fee_config(data: &[u8]) -> Option<((u64, u64, u16), (u64, u64, u16))> {
     if data.len() <= 166 {
@@ -300,6 +329,7 @@ pub fn project(bank: &Bank, ids: &Ids) -> Value {
                     "rewardTs": nu(rts as u128), "rewards": rewards, "rewardAuth": id(&Pubkey::new_from_array(exts[0])),
                     "flags": flags, "ext2zero": exts[2] == [0u8; 32], "ext1rest": exts[1][2..] == [0u8; 30],
                     "oracleId": id(&Pubkey::find_program_address(&[b"oracle", k.as_ref()], &wp_id).0),
+                    "mintsOrdered": ma < mb,
                     "len": a.data.len()
                 }));
             } else if d == whirlpool::state::Position::DISCRIMINATOR {
@@ -429,7 +459,9 @@ pub fn project(bank: &Bank, ids: &Ids) -> Value {
                         Some((o, n)) => json!({"has": true, "older": {"epoch": nu(o.0 as u128), "max": nu(o.1 as u128), "bps": o.2}, "newer": {"epoch": nu(n.0 as u128), "max": nu(n.1 as u128), "bps": n.2}}),
                         None => json!({"has": false, "older": {"epoch": 0, "max": 0, "bps": 0}, "newer": {"epoch": 0, "max": 0, "bps": 0}}),
                     };
-                    mint.insert(me, json!({"tf": tf,"auth": auth.map(|d| id(&d)).unwrap_or("none".into()), "supply": nu(supply as u128),
+                    // default account state value and TLV well-formedness (C19)
+                    let (dstate, tlv_ok) = if prog == "t22" { t22_default_state_and_wf(&a.data) } else { (1u8, true) };
+                    mint.insert(me, json!({"tf": tf, "defaultState": dstate, "tlvOk": tlv_ok, "native": *k == spl_token_2022::native_mint::ID,"auth": auth.map(|d| id(&d)).unwrap_or("none".into()), "supply": nu(supply as u128),
                         "decimals": dec, "init": init, "freeze": freeze.map(|d| id(&d)).unwrap_or("none".into()), "prog": prog, "exts": exts}));
                 }
             }
